@@ -39,6 +39,12 @@ size_t verif_z_pos = 0;           /* monitor: bytes consumed so far */
 _Bool verif_z_finish_seen = 0;
 int verif_z_leaks = 0;            /* Init without End on a path that leaves the function (resource leak, reported as class 'leak') */
 
+/* goto-instrument's loop-contract pass makes every static nondet: the harness re-establishes the initial ghost state */
+static void verif_zlib_reset(void)
+{
+  verif_z_state = 0; verif_z_src = 0; verif_z_src_len = 0; verif_z_pos = 0; verif_z_finish_seen = 0; verif_z_leaks = 0;
+}
+#define VERIF_ZLIB_RESET verif_zlib_reset();
 static int verif_inflateInit_(z_stream* s, const char* version, int size)
 {
   VERIF_ASSERT(verif_z_state == 0, "zlib: inflateInit on a fresh stream");
@@ -67,7 +73,8 @@ static void verif_z_io(z_stream* s, _Bool all_input_if_room)
   uint32_t consumed = (uint32_t)nondet_size_t(), produced = (uint32_t)nondet_size_t();
   VERIF_ASSUME(consumed <= s->avail_in && produced <= s->avail_out && produced <= verif_z_out_left);
   if (all_input_if_room) VERIF_ASSUME(produced == s->avail_out || consumed == s->avail_in);
-  if (produced != 0) __CPROVER_havoc_slice(s->next_out, produced);
+  /* over-approximation: the whole output object is havocked, not just [0, produced) (cheap for the solver) */
+  if (produced != 0) __CPROVER_havoc_object(s->next_out);
   s->next_in += consumed; s->avail_in -= consumed; s->total_in += consumed;
   s->next_out += produced; s->avail_out -= produced; s->total_out += produced;
   verif_z_out_left -= produced; verif_z_pos += consumed;
